@@ -129,4 +129,24 @@ theorem gen_read_all_eq (oc : Bool) (b : Buf) (h : b.WInv) : GenBuf.read_all oc 
     rcases readBytes oc l b with ⟨b'', o2⟩
     cases o2 <;> rfl
 
+theorem gen_read_byte_eq (oc : Bool) (b : Buf) (h : b.WInv) : GenBuf.read_byte oc b = readByte oc b := by
+  have hr := gen_read_bytes_eq oc 1 b h
+  simp only [GenBuf.read_byte, readByte, bind_eq, M.bind, hr]
+  rcases readBytes oc 1 b with ⟨b', o⟩
+  cases o with
+  | panic => rfl
+  | ok sl =>
+    cases sl with
+    | nil => simp
+    | cons x xs => simp
+
+theorem gen_try_read_byte_eq (oc : Bool) (b : Buf) (h : b.WInv) : GenBuf.try_read_byte oc b = tryReadByte oc b := by
+  have he := gen_is_empty_eq oc b h
+  have hb := gen_read_byte_eq oc b h
+  simp only [GenBuf.try_read_byte, tryReadByte, bind_eq, M.bind, he]
+  simp [isEmptyM]
+  by_cases hw : b.wi = b.ri
+  · simp [hw]
+  · simp [hw, hb]
+
 end FBV.BufGen
